@@ -1,5 +1,6 @@
 CONSTANTS EP = {"e1", "e2", "e3", "e4"}  REQ = {}  Kinds = {}  EBThreshold = 5  Engines = {"sherpa", "olla"}
 CONSTANT KnownDeviations = ${KnownDeviations}
+CONSTANT Scopes = ${Scopes}
 SPECIFICATION TraceSpec
 CONSTRAINT HW
 INVARIANTS GaugeExact AtMostOnce FailOnlyWhenExhausted Conserved
